@@ -840,7 +840,7 @@ func main() {
 	a := cli.Parse()
 	root := rng.New(a.Seed)
 	rep := emit.NewReport("C09", a.Seed, a.Tier)
-	rep.Rule = "random: n in 1..4 buckets x bl in {1,10,100,500,1000} ms, creation at a bucket boundary -1/0/+1/mid, optional filled array and a jump of up to 2 intervals, 2-3 goroutines x 1-2 record/read operations, up to 3 ticks (1, bl-1, bl, bl+1, interval, ...) placed by the random scheduler; scripted: the D7 interleaving for every parking position inside the reset; thorough: all interleavings of the listed small configurations. Non-trivial = at least two goroutines had operations in progress at the same time and a bucket was rolled over (a TryLock succeeded) during the schedule; distinct by executed schedule. parallel (search only): 4-16 real goroutines recording 500-2000 amounts each with timestamps on both sides of a bucket boundary (n >= 2 buckets; array created at the older bucket, or more than an interval earlier so that the racing recorders roll both slots over); per-bucket counters and the two window reads compared with the per-goroutine ledgers (exactly without rollover, as upper bounds with it); 8-16 goroutines recording one amount each at the same instant into a bucket whose slot is stale, for thousands of consecutive buckets: the bucket never holds more than was recorded for it."
+	rep.Rule = "random: n in 1..4 buckets x bl in {1,10,100,500,1000} ms, creation at a bucket boundary -1/0/+1/mid, optional filled array and a jump of up to 2 intervals, 2-3 goroutines x 1-2 record/read operations, up to 3 ticks (1, bl-1, bl, bl+1, interval, ...) placed by the random scheduler; scripted: the D7 interleaving for every parking position inside the reset; thorough: all interleavings of the listed small configurations. Non-trivial = at least two goroutines had operations in progress at the same time and a bucket was rolled over (a TryLock succeeded) during the schedule; distinct by executed schedule. parallel (search only): 4-16 real goroutines recording 500-2000 amounts each with timestamps on both sides of a bucket boundary (n >= 2 buckets; array created at the older bucket, or more than an interval earlier so that the racing recorders roll both slots over); per-bucket counters and the two window reads compared with the per-goroutine ledgers (exactly without rollover, as upper bounds with it); 8-16 goroutines recording one amount each at the same instant into a bucket whose slot is stale, for thousands of consecutive buckets: the bucket never holds more than was recorded for it; termination of the recording primitives: 2-4 scheduled goroutines in UpdateConcurrency on one bucket (a call returns to its write at most once per other recorder), 8-16 real goroutines mixing Add / AddRt / UpdateConcurrency on one bucket under a 10 s watchdog."
 	nCorr := a.Pick(a.N, 260, 2500)
 	nMon := a.Pick(a.Mon, 3000, 40000)
 	if a.Search {
@@ -922,7 +922,9 @@ func main() {
 	}
 	if a.Only >= 0 {
 		if a.Only >= parBase && a.Only < corpusBase {
-			if a.Only >= raceBase {
+			if a.Only >= ucBase {
+				primLegs(root, rep, 0, 0, a.Only)
+			} else if a.Only >= raceBase {
 				raceLeg(root, rep, 0, a.Pick(0, 8000, 60000), a.Only, 30*time.Second)
 			} else {
 				parLeg(root, rep, 0, a.Only, 30*time.Second)
@@ -957,10 +959,15 @@ func main() {
 	for id := 0; id < nMon; id++ {
 		runID(id, id < nCorr)
 	}
-	// real-thread search leg around a bucket boundary (par.go): bounded by counts, at most 4 s (quick) / 60 s (thorough)
-	parLeg(root, rep, a.Pick(0, 6, 120), -1, time.Duration(a.Pick(0, 4, 60))*time.Second)
-	raceLeg(root, rep, a.Pick(0, 4, 40), a.Pick(0, 8000, 60000), -1, time.Duration(a.Pick(0, 5, 120))*time.Second)
-	if a.Tier == "thorough" && !a.Search {
+	// termination of the recording primitives under contention on one bucket (prim.go): scheduled
+	// UpdateConcurrency cases, then real threads with a watchdog
+	primLegs(root, rep, a.Pick(0, 60, 2000), a.Pick(0, 4, 60), -1)
+	if !recordersStuck {
+		// real-thread search leg around a bucket boundary (par.go): bounded by counts, at most 4 s (quick) / 60 s (thorough)
+		parLeg(root, rep, a.Pick(0, 6, 120), -1, time.Duration(a.Pick(0, 4, 60))*time.Second)
+		raceLeg(root, rep, a.Pick(0, 4, 40), a.Pick(0, 8000, 60000), -1, time.Duration(a.Pick(0, 5, 120))*time.Second)
+	}
+	if a.Tier == "thorough" && !a.Search && !recordersStuck {
 		total := 0
 		complete := true
 		for ci, c0 := range enumConfigs() {
